@@ -7,6 +7,9 @@ rule         : how cases are generated and what makes one distinct & non-trivial
 
 PROPS = {
     "C17": {
+        "claim": 'Lean theorems: TombstoneArena and ArenaSet refine the {counter, live list} specification for every operation history (stability, no recycling, deletion final and isolated, iteration = live items in creation order, de-duplicating insert); the model is tied to the code by running the same histories on every public collection and comparing every answer.',
+        "level_note": 'Trusted: Lean kernel (+propext, Classical.choice, Quot.sound), the hand-written model of tombstone_arena.rs/arena_set.rs (sampled against the code on each run), id_arena and std hash containers.',
+        "technique": 'Lean 4 refinement proof + differential correspondence run',
         "lean_modules": ["Walrus.Props.C17"],
         "suites": [{"name": "arena"}],
         "rule": "operation histories (add/delete/get/index/iterate/len/find) on each public collection "
@@ -19,6 +22,9 @@ PROPS = {
         "assumptions": ["identifiers used in a history were handed out by the same collection (ids cannot be forged through the public API)"],
     },
     "C12": {
+        "claim": "Lean theorem customs_survive: for every input, configuration and script of emits/GC runs on the parsed module, each emitted binary carries exactly the input's uninterpreted custom sections (name, payload, multiplicity, order). The model (parse arm for custom sections + custom tail of emit_wasm as a state transformer) must predict the custom-section list of every emit of the real code exactly; an independent oracle compares input and output custom sections.",
+        "level_note": "Trusted: Lean kernel, hand model of Module::parse's custom-section arm and emit_wasm's tail (sampled against the code each run), wasmparser/wasm-encoder section framing.",
+        "technique": 'Lean 4 proof over a state-transformer model + differential correspondence run',
         "lean_modules": ["Walrus.Props.C12"],
         "suites": [{"name": "sections"}],
         "rule": "generated valid modules (random feature mix) with custom sections sprinkled at every section boundary "
@@ -30,6 +36,9 @@ PROPS = {
         "assumptions": ["custom sections added by user code with a name walrus interprets are out of scope (the property is about parsed modules)"],
     },
     "C14": {
+        "claim": 'Lean theorems skip_name_exact, skip_producers_exact, dwarf_iff, producers_once, producers_stable (any number of round trips), on_parse_once over the section-level model; exact prediction of the custom/name/producers/DWARF section inventory of the real code for all 8 switch settings; byte-level oracle that flipping a switch changes no other section.',
+        "level_note": 'Trusted: as C12; gimli abstracted to presence of DWARF; producers_once assumes a well-formed input producers section.',
+        "technique": 'Lean 4 proof + differential correspondence run + byte-level switch oracle',
         "lean_modules": ["Walrus.Props.C14"],
         "suites": [{"name": "sections"}],
         "rule": "as C12; each case additionally re-run with the name switch and the producers switch flipped (byte comparison of all other sections), "
@@ -39,6 +48,9 @@ PROPS = {
         "assumptions": ["producers_once assumes a well-formed input producers section (unique field names, unique value names per field), as the tool-conventions require"],
     },
     "C08": {
+        "claim": 'Lean theorems emit_pure, emit_repeatable, roundtrip_fixpoint for the custom-section/producers/name/DWARF slice of the module (emit as a state transformer); oracle on the real code: repeated emits on one Module byte-identical, two parses emit identical bytes, re-parse+emit of the output is a byte-for-byte fixpoint. Partial: byte-level determinism of the standard sections is decided by the oracle, not yet by a theorem.',
+        "level_note": 'Trusted: as C12; hash-iteration independence and wasm-encoder being a function are sampled by the oracle, not proved.',
+        "technique": 'Lean 4 proof (slice) + byte-equality oracle',
         "lean_modules": ["Walrus.Props.C08"],
         "suites": [{"name": "sections"}],
         "rule": "as C12; oracle: emits on one Module byte-identical, a second parse of the same bytes emits identical bytes (fresh hash seeds), "
@@ -47,5 +59,19 @@ PROPS = {
                     "byte-level determinism of the standard sections and cross-process hashing are decided by the oracle only (see DESIGN.md)",
         "trusted_base": ["std HashMap iteration order is never relied on without a following sort: audited by the oracle, not proved"],
         "assumptions": [],
+    },
+    "C09": {
+        "claim": 'Lean theorems parMapCollect_eq, schedAny_eq, firstError_eq: for every schedule (completion order of the per-function tasks) the indexed collect equals the serial map, any equals the serial any, and the reported error is the first by index; kernel-checked obligations over the table of maybe_parallel! sites regenerated from /repo by the translator on every run (each site is map+collect::<Vec> or any; no other rayon use; no unsafe/interior mutability in src/). Oracle: serial vs parallel build on the same inputs for several thread counts and repeats, byte-identical output and identical errors. Partial: rayon and data-race freedom are trusted.',
+        "level_note": "Trusted: Lean kernel, wtrans (syn-based extraction), rayon's indexed collect/any, Rust's Send/Sync guarantees; thread interleavings are sampled, not proved.",
+        "technique": 'Lean 4 proof over all schedules + translator-generated site table + serial/parallel differential oracle',
+        "lean_modules": ["Walrus.Props.C09"],
+        "gen": ["parsites"],
+        "suites": [{"name": "par", "features": "parallel"}],
+        "rule": "the same inputs through the serial and the parallel build: generated modules (<=40 functions), synthetic modules with 2..300 functions of equal and unequal size, "
+                "modules with failing function bodies at 1-4 random indices; x thread counts {1,2,4,16} (thorough 1..16) x repeats; compared: emitted bytes or the error text. "
+                "Non-trivial: every case (each has >=2 functions); distinct by resulting digest/error",
+        "strength": "partial by design: theorems cover the collection discipline for every schedule and the generated site table; rayon and data-race freedom of safe Rust are trusted; actual interleavings are sampled",
+        "trusted_base": ["rayon's indexed collect / any; Rust's Send/Sync typing", "wtrans (syn) extraction of the maybe_parallel! sites"],
+        "assumptions": ["every task completes (rayon joins all tasks before collect returns)"],
     },
 }
